@@ -233,6 +233,12 @@ def run(ctx, lean_ok):
     if F is not None:
         F.close()
     ctx.notes.append('flashes skipped because they exceeded the time box (C02 matter): %d' % nslow)
+    ctx.oblige('coverage floor: at most 10 %% of the flashes time-boxed (%d of %d)' % (nslow, ncase), nslow <= 0.1 * ncase)
+    ntwo = ctx.hist.get('flash:two-phase', 0)
+    ctx.oblige('coverage floor: at least 10 two-phase flashes compared (got %d)' % ntwo, ntwo >= 10)
+    for mode in ('zero', 'const', 'groups'):
+        k = sum(v for kk, v in ctx.hist.items() if kk.startswith(mode + ':'))
+        ctx.oblige('coverage floor: at least 15 mixtures with %s interaction coefficients (got %d)' % (mode, k), k >= 15)
     ctx.notes.append('worst relative change per quantity and transformation: %r' % {k: float('%.3g' % v) for k, v in sorted(worst.items())})
     out = run_driver(ctx, 'C01', lines) if lean_ok else None
     if out is not None:
